@@ -10,6 +10,7 @@ CHECKS = {
  "C01": ("exploration", "Seeded search over fault plans (drop/dup/delay/hold/flip addressed by sender, SCTP chunk class and ordinal; background rates; partitions), knob settings (RTO, windows, burst, cwnd, heartbeat, initial TSN at the 2^32 wrap) and task schedules against the real IceConn->DTLS->SCTP->DataChannel stack; prefix oracle at every delivery, completeness oracle a generous bound after heal.", T+" (seeded plans, wire-monitor-addressed faults, shrinking, replay)", "§4 C01"),
  "C02": ("exploration", "Real DtlsTransport pair; victim in client or server role with expected fingerprint absent/matching/mismatching/claimed-by-another-key; on-path rewriter replaces/empties Certificate, truncates/bit-flips/randomises/drops/re-fragments handshake messages on every retransmission. Systematic core of 360 cases exhaustively each run, then random combinations. Oracles: Connected only with the fingerprint's key holder and a shared master secret; otherwise Failed, no application data, no exported keys.", T+" (on-path handshake rewriting, systematic core + seeded combinations)", "§4 C02"),
  "C03": ("exploration", "Fault-free handshake and payloads from 1..8 concurrent senders per side while a third host injects cleartext/wrong-key/spoofed records of every content type before, during and after the handshake, and an on-path party adds every stride-th single-bit flip and truncation of genuine records. Oracles: upper layer sees exactly what the keyed peer sent; state unchanged; every emitted application record is epoch>=1, opens under the negotiated key, <=1200 B plaintext, unique (epoch, seq).", T+" (third-party injection, bit-flip fans, concurrent senders, wire monitor)", "§4 C03"),
+ "C10": ("exploration", "Two full PeerConnections on a fault-free simulated network for every compatible point of the configuration lattice (mode x media mix x bundle x rtcp-mux x ICE-lite x UDP mux x latching x SDP compatibility x offerer = 588 compatible points, all enumerated in thorough, sampled in quick, each with seeded latencies and task schedule). Oracle: offer/answer succeeds, both Connected within the configured timeouts, one data-channel message and RTP packets per direction arrive intact, DTLS keys/SRTP exporter identical at both ends. ICE-TCP, TURN, UPnP are excluded (no seam).", T+" (configuration-lattice enumeration under a seeded scheduler)", "§4 C10"),
  "C11": ("fault_enumeration", "Every single fault {drop, dup, late dup, swap, delay 0.7/6 s, split in 2/3 fragments} on every handshake datagram class of both directions (first transmission and first retransmission) is enumerated; pairs are sampled (quick) or fully enumerated (thorough); then random multi-fault histories. Oracles: both Connected => identical secrets/keys/profile/exporter; data intact or absent; after heal both Connected before the 30 s deadline.", T+" (enumerated single/double faults + seeded histories)", "§4 C11"),
  "C12": ("exploration", "1..16 channels of all six types (negotiated and in-band DCEP), 1..8 sender tasks per channel, sizes 0..256 KiB, channel close, under the C01 fault space. Oracles: each delivered message equals exactly one submitted message of that channel and sender, order per mode, Open exactly once before first message, Close at most once, in-band parameters preserved.", T+" (reference message model per channel/sender)", "§4 C12"),
  "C13": ("exploration", "C01/C12 runs with the wire monitor's SCTP invariants on every emitted packet (size, CRC32c by an own implementation, verification tag, consecutive first-transmission TSNs) and temporal invariants (no retransmission after a delivered covering SACK, window rule with RFC-sound exclusions, 125 s post-ack quiet).", T+" (wire monitor over decrypted SCTP)", "§4 C13"),
@@ -22,7 +23,7 @@ NA = {
  "C15": "RTP/RTCP encode/decode inverse laws and reference conformance are pure functions of input bytes/values",
  "C16": "STUN/TURN message conformance, candidate-line round trip and pair-priority symmetry are pure algebra over values",
 }
-PENDING = ["C04","C05","C06","C07","C09","C10","C17","C20"]
+PENDING = ["C04","C05","C06","C07","C09","C17","C20"]
 import sys, os
 claimed = [p for p in CHECKS if os.path.exists(f"/verif/evidence/{p}.json") or True]
 def chk(pid):
